@@ -175,7 +175,7 @@ def run(ctx):
     ctx.note('encodings_loaded', n)
     # ---- write direction: real save() on the enumerated files, validated by TLC
     col = Collect(ctx, write_worker, batch_size=500)
-    kinds = '{1,2,3,4,5,6,7,8,9,10,11,12,13,14,15,16}' if thorough else '{1,2,3,4,6,8,9,10,11,12,13,14,16}'
+    kinds = '{1,2,3,4,5,6,7,8,9,10,11,12,13,14,15,16}' if thorough else '{1,2,3,4,6,7,8,9,10,11,12,13,14,15,16}'
     res = core.run_tlc('SmfFiles', c07.cfg(kinds, '{0,1,128}', 3 if thorough else 2, False),
                        on_emit=col.push, raw_ints=True, timeout=3000, heap='16g')
     col.finish()
